@@ -23,6 +23,13 @@ F. factories: every public way of building a probe / object model (ast scan of t
 G. life histories on ONE model instance: in-place optimiser steps, reset, read, to, deepcopy, save+load - after every reset the model hands out
    what it handed out after the first initialisation and the stored initial array never changes.
 The object lattice (A) also has a mask-SHAPE dimension: 2-D masks and, for multislice objects, 3-D masks with equal / differing planes.
+B2. probe orthogonalisation, CONTENT of the raw mode stack: m = C u with an orthonormal basis u (seeded complex / real patterns on disjoint supports) and a
+   lower-triangular coupling matrix C: which pairs overlap {chain, star, first pair, last pair, all} x phase of the overlap {purely real +/-, purely
+   imaginary +/-, generic} x size x intensity profile (ties, unsorted), exactly orthogonal stacks, 2..4 (thorough: 5) modes; oracle of part B.
+H. setting changes on ONE live ObjectPixelated: every ordered pair of {obj_type setter in every accepted spelling, one constraint flag through the
+   constraints setter / add_constraint, mask setter, read, reset} and every ordered triple of {obj_type values, read} (thorough: of the setter events);
+   the object / patches must satisfy the clauses of the CURRENT declared type and equal those of a model freshly built with the final settings.
+I. setting changes on ONE live ProbePixelated: histories of {orthogonalize_probe on/off by both routes, probe setter with three stacks, read}.
 """
 from __future__ import annotations
 
@@ -46,7 +53,11 @@ CLAIM = (
     "and tomography models with no constraint written behave bit for bit as if no other instance had ever been configured, are admissible under the "
     "default constraints, and the class-level default mappings are unchanged; and for every single step, ordered pair (thorough: triple) of ways of handing constraints to a "
     "real multislice Ptychography object (constraints property, model setters, reconstruct with reset False/True, 0/1 iterations, constraints given or not) the constraints in force "
-    "equal the requested ones and the object, patches and probe handed to the forward model satisfy them. Exhaustive lattice exploration is the right level: the property quantifies over constraint dictionaries, masks, types "
+    "equal the requested ones and the object, patches and probe handed to the forward model satisfy them; the probe clauses also hold for every raw mode stack of a content alphabet "
+    "(coupled pairs chain / star / first / last / all x overlap purely real, purely imaginary, negative, generic x size x intensity profile with ties and unsorted orders, exactly orthogonal stacks, "
+    "2..4 modes); and after every ordered pair of public setting changes on ONE live object model (obj_type setter in every accepted spelling, single constraint flags by both routes, mask setter, "
+    "read, reset; every ordered triple of obj_type values and reads) the object and the patches satisfy the clauses of the type declared NOW and equal those of a model freshly built with the "
+    "final settings and the same raw parameters (likewise orthogonalize_probe / probe-setter histories on one live probe model). Exhaustive lattice exploration is the right level: the property quantifies over constraint dictionaries, masks, types "
     "and magnitudes where the defects live (flag interactions), and every combination of the stated alphabets is executed."
 )
 NOTE = (
@@ -57,12 +68,15 @@ NOTE = (
     "potential object) with no mask set is a usage error that raises and is not a lattice point. The history part trusts the defaults a fresh model reports at start-up (before any event) as the meaning of 'default' and bounds "
     "histories at two (thorough: three) events of a 42-event alphabet. The pipeline part uses the shared builder checks/_ptycho.py and a reference model in which reset=True "
     "restores the OBJECT defaults before the request of the same call is applied (what reset_recon documents) and leaves probe keys not named in that call unjudged. Two known findings are reported by class, "
-    "not hidden: pure_phase with a field-of-view mask below one, and repeated application of a fractional mask."
+    "not hidden: pure_phase with a field-of-view mask below one, and repeated application of a fractional mask. Setting histories: the raw parameters keep the dtype of the type the model was "
+    "built with, so complex raw parameters under final type 'potential' are not lattice points; a mask stored under a wave type makes the masked potential constraint raise after a switch to 'potential' "
+    "(counted as count_observed_mask_set_under_a_wave_type_raises_after_switch_to_potential, a raise is not an inadmissible object); stacks with an all-zero mode are run and counted only."
 )
 RULE = (
     "Cartesian product of the alphabets named in coverage.alphabet. An object point is non-trivial when the constraint has to change the raw "
     "tensor (amplitude above one / not one / negative values / differing slices / a mask below one applied); a probe point when M >= 2; a "
-    "weight point when the requested shares differ from the shares of the input stack; a history when it has at least one event. distinct = distinct point descriptors."
+    "weight point when the requested shares differ from the shares of the input stack; a history when it has at least one event; a content stack when M >= 2 (the stack-content part raises Broken unless purely imaginary, purely real, partly zero and exactly orthogonal "
+    "overlap structures all occur); a setting history by the rule of the object point for its final settings (Broken unless at least 100 histories are judged after a change of obj_type). distinct = distinct point descriptors."
 )
 
 MAGS = [0.0, 1e-3, 0.5, 1.0, 1.0 + 1e-6, 3.0, 1e4]
@@ -79,6 +93,8 @@ MASKS_3D = [("binary3d", "equal"), ("binary3d", "differing"), ("fractional3d", "
 #   Gram off-diagonal / largest intensity: 2.2e-6 (float32 Gram-Schmidt at correlation 0.99, norm ratio 30; the design probe saw 5e-7
 #   on milder stacks, so the design's 1e-5 would leave a margin of only 4.6x)    -> TOL_GRAM = 1e-4  (45x; smallest mutant effect 7.1e-3 = 71x)
 #   intensity multiset 4.0e-7, total intensity 3.9e-7, mode shares 6.2e-8    -> TOL_INT  = 1e-5  (>= 25x; smallest mutant effect 1.1e-2)
+#   stack-content lattice (B2): Gram off-diagonal 4.2e-6 (four modes, every pair coupled with factor -2, equal intensities)  -> TOL_GRAM is 23x that
+#   (coupling sizes above 2, and above 0.75 for five modes, are left out: float32 Gram-Schmidt itself reaches 1.3e-5..2.3e-5 there); C10-r6s1 effect 0.69
 TOL_AMP = 5e-6
 TOL_IDEM = 1e-5
 TOL_GRAM = 1e-4
@@ -230,6 +246,14 @@ def judge_object(t, ot, S, hw, rdesc, flags, mdesc, path, seed, model=None):
         t.fail({"relation": "constraint_raises", "obj_type": ot, "path": path, "mask_set": mask is not None, "exception": res[1]}, case, f"{ot} S={S} flags={flags} mask={mdesc} path={path}: {res[1]}: {res[2]}")
         return
     _, o, o2, patches = res
+    where = f"{ot} S={S} hw={hw} raw={rdesc} flags={ {k: int(v) for k, v in flags.items()} } mask={mdesc} path={path}"
+    judge_object_result(t, case, where, ot, S, raw, mask, flags, o, o2, patches)
+
+
+def judge_object_result(t, case, where, ot, S, raw, mask, flags, o, o2, patches):
+    """The object clauses of the property on one constrained object `o` (declared type `ot`, constraint flags, mask), its second
+    application `o2` and, for tied slices, the patches handed to the forward model. Shared by the lattice (A) and the setting histories (H)."""
+    afm = bool(flags["apply_fov_mask"])
     masked = afm and mask is not None
     below_one = bool(masked and (mask < 1).any())
     fractional = bool(masked and ((mask > 0) & (mask < 1)).any())
@@ -245,7 +269,6 @@ def judge_object(t, ot, S, hw, rdesc, flags, mdesc, path, seed, model=None):
         nontriv = bool((rawv < 0).any()) and bool(flags["positivity"] or flags["fix_potential_baseline"])
     nontriv = nontriv or below_one or (tie and bool(np.abs(raw - raw[:1]).max() > 0))
     t.case(key=case, nontrivial=nontriv, outcome=[ot, tie, below_one, round(float(amp.max()), 4), round(float(amp.min()), 4)])
-    where = f"{ot} S={S} hw={hw} raw={rdesc} flags={ {k: int(v) for k, v in flags.items()} } mask={mdesc} path={path}"
     if not (np.isfinite(o).all() and np.isfinite(o2).all()):
         t.fail({"relation": "constrained_object_finite", "obj_type": ot}, case, f"{where}: constrained object contains non-finite values")
         return
@@ -382,33 +405,41 @@ def run_ortho(P, via, seed):
 
 def judge_ortho(t, M, corr, roi, profile, via, seed, k):
     P = make_modes(M, corr, roi, profile, seed, k)
-    P32 = P.astype(np.complex64).astype(np.complex128)
     case = {"kind": "ortho", "M": M, "corr": corr, "roi": list(roi), "profile": profile, "via": via, "k": k}
+    where = f"M={M} correlation={corr} roi={roi} profile={profile} via={via} k={k}"
+    judge_ortho_stack(t, P, case, where, via, seed, [M, corr, profile])
+
+
+def judge_ortho_stack(t, P, case, where, via, seed, tag, stat="gram_offdiag_over_max_intensity", extra_cls=None):
+    """Probe clauses on ONE raw mode stack P (complex128, M x h x w): install it (from_array / probe setter), read `probe`, demand mutually
+    orthogonal modes carrying the same multiset of intensities in descending order. Shared by the correlation lattice (B) and the content lattice (B2)."""
+    M = P.shape[0]
+    xc = dict(extra_cls or {})
+    P32 = P.astype(np.complex64).astype(np.complex128)
     try:
         Q = run_ortho(P, via, seed)
     except Exception as e:  # the library raising on a valid mode stack is an observation about the constraint, not a checker crash
         t.case(key=case, nontrivial=True, outcome=["raised", type(e).__name__])
-        t.fail({"relation": "library_raises", "stage": "probe property", "exception": type(e).__name__}, case, f"M={M} correlation={corr} roi={roi} profile={profile} via={via}: {type(e).__name__}: {str(e)[:200]}")
+        t.fail({"relation": "library_raises", "stage": "probe property", "exception": type(e).__name__, **xc}, case, f"{where}: {type(e).__name__}: {str(e)[:200]}")
         return
     G = Q.reshape(M, -1) @ Q.reshape(M, -1).conj().T
     ints = np.real(np.diag(G))
     orig = np.sum(np.abs(P32) ** 2, axis=(1, 2))
     big = float(orig.max())
     off = float(np.abs(G - np.diag(np.diag(G))).max()) / big if M > 1 else 0.0
-    t.case(key=case, nontrivial=M >= 2, outcome=[M, corr, profile, [round(float(v), 4) for v in ints]])
-    where = f"M={M} correlation={corr} roi={roi} profile={profile} via={via} k={k}"
-    t.stat("gram_offdiag_over_max_intensity", off)
+    t.case(key=case, nontrivial=M >= 2, outcome=[*tag, [round(float(v), 4) for v in ints]])
+    t.stat(stat, off)
     if Q.shape != P.shape or not np.isfinite(Q).all():
-        t.fail({"relation": "probe_shape_finite"}, case, f"{where}: probe property returned shape {Q.shape} / non-finite values")
+        t.fail({"relation": "probe_shape_finite", **xc}, case, f"{where}: probe property returned shape {Q.shape} / non-finite values")
         return
     if off > TOL_GRAM:
-        t.fail({"relation": "probe_modes_orthogonal", "modes": M}, case, f"{where}: largest off-diagonal Gram entry is {off:.3g} of the largest mode intensity (tol {TOL_GRAM})")
+        t.fail({"relation": "probe_modes_orthogonal", "modes": M, **xc}, case, f"{where}: largest off-diagonal Gram entry is {off:.3g} of the largest mode intensity (tol {TOL_GRAM})")
     e = float(np.abs(np.sort(ints) - np.sort(orig)).max()) / big
-    t.stat("intensity_multiset_rel_dev", e)
+    t.stat("intensity_multiset_rel_dev" if stat == "gram_offdiag_over_max_intensity" else stat + "_intensity_multiset_rel_dev", e)
     if e > TOL_INT:
-        t.fail({"relation": "probe_intensity_multiset_preserved", "modes": M}, case, f"{where}: mode intensities {np.sort(ints)[::-1].round(5).tolist()} differ from the input multiset {np.sort(orig)[::-1].round(5).tolist()}")
+        t.fail({"relation": "probe_intensity_multiset_preserved", "modes": M, **xc}, case, f"{where}: mode intensities {np.sort(ints)[::-1].round(5).tolist()} differ from the input multiset {np.sort(orig)[::-1].round(5).tolist()}")
     if M > 1 and float((ints[1:] - ints[:-1]).max()) > TOL_INT * big:
-        t.fail({"relation": "probe_intensities_descending", "modes": M}, case, f"{where}: mode intensities not in descending order: {ints.round(5).tolist()}")
+        t.fail({"relation": "probe_intensities_descending", "modes": M, **xc}, case, f"{where}: mode intensities not in descending order: {ints.round(5).tolist()}")
 
 
 def w_ortho(item, seed=0, nseeded=2):
@@ -1229,6 +1260,384 @@ def w_life(item, seed=0, maxlen=4, scratch="/tmp"):
     return t
 
 
+# ----------------------------------------------------------------------------- B2. probe orthogonalisation: CONTENT of the raw mode stack
+# The correlation lattice (B) fills its stacks with seeded data: every pairwise overlap <p_i, p_j> is a generic complex number. Any branch of the
+# orthogonalisation that depends on the DATA (an "already orthogonal?" test, a pivot, a threshold on an overlap) sees only one kind of content
+# there. Here the stack is m = C u with an orthonormal basis u (seeded complex, or real patterns on disjoint supports, whose zero overlaps are
+# exact in every precision) and a lower-triangular coupling matrix C with unit diagonal (the stack is linearly independent by construction):
+# which pairs overlap (pattern) x the phase of the overlap (purely real +/-, purely imaginary +/-, generic) x its size, plus exactly
+# orthogonal stacks, in every intensity profile (ties, unsorted orders). Oracle: the one of part B.
+OC_PATTERNS = ["chain", "star", "first_pair", "last_pair", "all_lower"]
+OC_PHASES = [0, 180, 90, -90, 45, 120]  # degrees: phase of the coupling factor = phase of the overlap of the coupled pair
+OC_PHASES_THOROUGH = [0, 180, 90, -90, 45, 120, 30, 60, 135, -45, -135, -120]
+OC_MAGS = [0.05, 0.75, 2.0]  # size of the coupling factor: pair correlation c/sqrt(1+c^2) = 0.05, 0.6, 0.89
+OC_MAGS_THOROUGH = [0.01, 0.05, 0.3, 0.75, 1.5, 2.0]
+OC_BASES = ["seeded", "disjoint"]
+_UNIT = {0: 1.0, 90: 1j, 180: -1.0, -90: -1j}  # exact, so that "purely imaginary" has a real part of exactly zero
+
+
+def _unit(deg):
+    return _UNIT[deg] if deg in _UNIT else complex(np.exp(1j * np.deg2rad(deg)))
+
+
+def content_descs(M, quick):
+    pats = OC_PATTERNS if M > 2 else ["chain"]  # with two modes every pattern is the one pair
+    phases = OC_PHASES if quick else OC_PHASES_THOROUGH
+    mags = OC_MAGS if quick else OC_MAGS_THOROUGH
+    if M >= 5:
+        mags = [m for m in mags if m <= 0.75]  # five strongly coupled modes: float32 Gram-Schmidt itself reaches 1.3e-5, too close to TOL_GRAM
+    d = [["orthogonal"]]
+    d += [[p, ph, mg] for p in pats for ph in phases for mg in mags]
+    d += [["mixed_phases", mg] for mg in mags]  # chain whose successive overlaps are imaginary, negative real, positive real, -imaginary; all other pairs exactly zero
+    d += [["zero_mode", p] for p in range(M)]  # outside the quantifier (linearly dependent): run and counted, never failed
+    return d
+
+
+def _profile_norms(profile, M):
+    return {
+        "equal": np.ones(M),
+        "descending": np.array([3.0 / (i + 1) for i in range(M)]),
+        "ascending": np.array([0.5 * (i + 1) for i in range(M)]),
+        "mixed": np.array([[1.0, 0.1, 3.0, 0.3, 2.0][i] for i in range(M)]),
+    }[profile]
+
+
+def make_content_modes(M, desc, basis, roi, profile, seed):
+    """M modes m = C u, rows scaled to the norm profile; complex128. desc: see content_descs."""
+    n = roi[0] * roi[1]
+    if basis == "seeded":
+        rng = np.random.default_rng([seed, 10, 14, M, roi[0], roi[1]])
+        A = rng.normal(size=(n, M)) + 1j * rng.normal(size=(n, M))
+        U = np.linalg.qr(A)[0].T
+    else:  # real patterns on disjoint supports: products of different basis members are zero element by element
+        k = np.arange(n)
+        U = np.stack([np.where(k % M == j, 1.0 + (k // M) % 3, 0.0) for j in range(M)]).astype(np.complex128)
+        U = U / np.linalg.norm(U, axis=1, keepdims=True)
+    C = np.eye(M, dtype=np.complex128)
+    kind = desc[0]
+    if kind == "mixed_phases":
+        for i in range(1, M):
+            C[i, i - 1] = desc[1] * _unit([90, 180, 0, -90][(i - 1) % 4])
+    elif kind == "zero_mode":
+        for i in range(1, M):
+            C[i, i - 1] = 0.75
+    elif kind != "orthogonal":
+        c = desc[2] * _unit(desc[1])
+        for i in range(1, M):
+            if kind == "chain":
+                C[i, i - 1] = c
+            elif kind == "star":
+                C[i, 0] = c
+            elif kind == "all_lower":
+                C[i, :i] = c
+        if kind == "first_pair":
+            C[1, 0] = c
+        elif kind == "last_pair":
+            C[M - 1, M - 2] = c
+    V = C @ U
+    if kind == "zero_mode":
+        V[desc[1]] = 0.0
+    nv = np.linalg.norm(V, axis=1, keepdims=True)
+    V = V / np.where(nv > 0, nv, 1.0) * _profile_norms(profile, M)[:, None]
+    return V.reshape(M, *roi)
+
+
+def judge_content(t, M, desc, basis, roi, profile, via, seed):
+    P = make_content_modes(M, desc, basis, roi, profile, seed)
+    case = {"kind": "ortho_content", "M": M, "content": list(desc), "basis": basis, "roi": list(roi), "profile": profile, "via": via}
+    where = f"M={M} stack content={desc} basis={basis} roi={roi} profile={profile} via={via}"
+    F = P.reshape(M, -1)
+    G0 = F @ F.conj().T
+    nrm = np.sqrt(np.real(np.diag(G0)))
+    if desc[0] == "zero_mode":
+        try:
+            Q = run_ortho(P, via, seed)
+            G = Q.reshape(M, -1) @ Q.reshape(M, -1).conj().T
+            ok = bool(np.isfinite(Q).all()) and float(np.abs(G - np.diag(np.diag(G))).max()) <= TOL_GRAM * float(nrm.max() ** 2)
+        except Exception:
+            ok = False
+        t.extra["observed_stack_with_an_all_zero_mode_" + ("finite_and_orthogonal" if ok else "NOT_finite_and_orthogonal")] += 1
+        return
+    corr = np.abs(G0) / (nrm[:, None] * nrm[None, :])
+    cmax = float((corr - np.eye(M)).max())
+    if cmax > 0.99 or np.linalg.matrix_rank(F) != M:
+        raise Broken(f"content stack {desc} M={M} leaves the quantifier: pairwise correlation {cmax:.4f}, rank {np.linalg.matrix_rank(F)}")
+    off0 = G0 - np.diag(np.diag(G0))
+    big0 = float(np.abs(off0).max())
+    if big0 > 1e-9 and float(np.abs(off0.real).max()) <= 1e-12 * big0:
+        t.extra["content_stacks_with_purely_imaginary_overlaps"] += 1
+    if big0 > 1e-9 and float(np.abs(off0.imag).max()) <= 1e-12 * big0:
+        t.extra["content_stacks_with_purely_real_overlaps"] += 1
+    if big0 > 1e-9 and M > 2 and bool((np.abs(off0[np.triu_indices(M, 1)]) <= 1e-12 * big0).any()):
+        t.extra["content_stacks_with_zero_overlap_for_some_pairs_only"] += 1
+    if big0 <= 1e-9:
+        t.extra["content_stacks_exactly_orthogonal"] += 1
+    judge_ortho_stack(t, P, case, where, via, seed, [M, *desc, basis, profile], stat="content_gram_offdiag_over_max_intensity", extra_cls={"stack_content": desc[0]})
+
+
+def w_content(item, seed=0, quick=True):
+    M, basis, roi, profile = item
+    t = Tally()
+    for desc in content_descs(M, quick):
+        for via in ("from_array", "setter"):
+            judge_content(t, M, desc, basis, tuple(roi), profile, via, seed)
+    t.sample({"kind": "ortho_content", "M": M, "basis": basis, "roi": list(roi), "profile": profile, "contents": len(content_descs(M, quick))}, cap=2)
+    return t
+
+
+# ----------------------------------------------------------------------------- H. setting changes on ONE live object model
+# Parts A-G give every model its settings once (type at construction, constraints before the first read). Here the enumerated object is a
+# history of public setting changes on ONE live ObjectPixelated: the obj_type setter (every accepted spelling), single constraint flags through
+# the constraints setter and through add_constraint, the mask setter, reset, and reads in between (obj + forward). The public surface has no
+# setter for the slice count. After the history a dict reference model says which type / flags / mask are in force; the object from `obj` and the patches from
+# forward() must satisfy the clauses of the CURRENT declared type (judge_object_result) and equal, to float32 round-off, what a model freshly
+# built with the final settings hands out for the same raw parameters (differential oracle).
+OS_HW = (5, 6)
+OS_SPELLINGS = {"complex": "complex", "pure_phase": "pure_phase", "potential": "potential", "purephase": "pure_phase", "pure phase": "pure_phase", "potentials": "potential", "COMPLEX": "complex"}
+OS_MASKS = {"ones": ("ones",), "binary": ("binary", "seeded"), "fractional": ("fractional", "seeded")}
+OS_RAWS = [("grid", 1), ("seeded", 0)]
+TOL_FRESH = 1e-5  # live model vs fresh model, relative to the value scale: worst observed on the unchanged tree 0 (bitwise equal); smallest seeded effect 4e-3
+
+
+def setting_events(reduced=False):
+    ev = [["type", s] for s in list(OS_SPELLINGS)[: 3 if reduced else None]]
+    ev += [["flag", k, v, r] for r in (ROUTES[:1] if reduced else ROUTES) for k in FLAGS for v in (True, False)]
+    ev += [["mask", m] for m in OS_MASKS]
+    ev += [["read"]]
+    if not reduced:
+        ev += [["reset"]]
+    return ev
+
+
+def _ev_str(e):
+    if e[0] == "type":
+        return f"obj_type = {e[1]!r}"
+    if e[0] == "flag":
+        return f"constraints = {{{e[1]!r}: {e[2]}}}" if e[3] == "setter" else f"add_constraint({e[1]!r}, {e[2]})"
+    if e[0] == "mask":
+        return f"mask = <{e[1]}>"
+    return e[0] + "()" if e[0] == "reset" else "read obj, forward()"
+
+
+_LIB_ERRORS = (RuntimeError, ValueError, IndexError, NotImplementedError, TypeError)
+
+
+def run_setting_history(t, t0, S, rdesc, events, seed):
+    torch = _torch()
+    from quantem.diffractive_imaging.object_models import ObjectPixelated
+
+    hw = OS_HW
+    events = [list(e) for e in events]
+    case = {"kind": "settings", "built_as": t0, "S": S, "raw": list(rdesc), "events": events}
+    where = f"ONE ObjectPixelated built as {t0}, S={S} hw={hw} raw={tuple(rdesc)}; then " + (" ; ".join(_ev_str(e) for e in events) or "nothing")
+    raw = make_raw(tuple(rdesc), S, hw, seed)
+    # + 0: no negative zeros in a real raw tensor. torch.angle(-0.0) is 0 for a real and pi for a complex tensor, so a real raw tensor read under a
+    # wave type and its complex copy in the fresh model would disagree there for a reason that has nothing to do with the settings.
+    init = raw.real.astype(np.float32) + np.float32(0) if t0 == "potential" else raw.astype(np.complex64)
+    thick = 2.0 if S > 1 else None
+    idx = torch.arange(hw[0] * hw[1], dtype=torch.int32).reshape(1, *hw)  # one patch covering the whole object
+    st = {"type": t0, "mask": None, "mask_under": None}
+    try:
+        om = ObjectPixelated.from_array(init, slice_thicknesses=thick, obj_type=t0, rng=int(seed) + 61)
+        om.reset()
+        st["flags"] = {k: bool(om.constraints[k]) for k in FLAGS}  # the defaults, as the model reports them
+        for e in events:
+            if e[0] == "type":
+                om.obj_type = e[1]
+                st["type"] = OS_SPELLINGS[e[1]]
+            elif e[0] == "flag":
+                if e[3] == "setter":
+                    om.constraints = {e[1]: e[2]}
+                else:
+                    om.add_constraint(e[1], e[2])
+                st["flags"][e[1]] = bool(e[2])
+            elif e[0] == "mask":
+                st["mask"] = make_mask(OS_MASKS[e[1]], hw, seed)
+                st["mask_under"] = st["type"]
+                om.mask = st["mask"].astype(np.float32)
+            elif e[0] == "reset":
+                om.reset()
+            else:
+                try:  # a read in a state that cannot be read (usage error) raises; only the final observation is judged
+                    with torch.no_grad():
+                        om.obj
+                        om.forward(idx)
+                except _LIB_ERRORS:
+                    t.extra["setting_histories_intermediate_read_raised"] += 1
+        rep_type = om.obj_type
+        rep_flags = {k: bool(om.constraints[k]) for k in FLAGS}
+    except Exception as e:
+        t.case(key=case, nontrivial=True, outcome=["raised", type(e).__name__])
+        t.fail({"relation": "library_raises", "stage": "object setting change", "exception": type(e).__name__, "built_as": t0}, case, f"{where}: {type(e).__name__}: {str(e)[:200]}")
+        return
+    ot, flags, mask = st["type"], st["flags"], st["mask"]
+    if rep_type != ot:
+        t.fail({"relation": "setting_in_force", "setting": "obj_type"}, case, f"{where}: the model reports obj_type {rep_type!r}, requested {ot!r}")
+    if rep_flags != flags:
+        t.fail({"relation": "setting_in_force", "setting": "constraints"}, case, f"{where}: the model reports the flags {rep_flags}, requested {flags}")
+    if t0 != "potential" and ot == "potential":
+        # complex raw parameters under a real-valued declared type: the quantifier's "raw parameter tensors" of a potential object are real
+        t.extra["setting_histories_complex_raw_under_potential_type_not_in_lattice"] += 1
+        return
+    afm, fpb = flags["apply_fov_mask"], flags["fix_potential_baseline"]
+    usage_error = mask is None and (afm or (ot == "potential" and fpb))
+    stale_mask_dtype = mask is not None and ot == "potential" and st["mask_under"] != "potential" and (afm or fpb)
+    try:
+        with torch.no_grad():
+            first = om.obj.detach().clone()
+            patches = om.forward(idx).detach().numpy()
+            second = om.apply_hard_constraints(first.clone(), mask=om.mask).detach().numpy()
+            first = first.numpy()
+    except _LIB_ERRORS as e:
+        if usage_error:
+            t.extra["usage_error_points_not_in_lattice"] += 1
+        elif stale_mask_dtype:
+            # HEAD: the mask setter stores the mask in the dtype of the type declared at that moment (complex64 under a wave type); after a
+            # switch to 'potential' the masked constraint raises. A raise is not an inadmissible object: counted and reported, not failed.
+            t.extra["observed_mask_set_under_a_wave_type_raises_after_switch_to_potential"] += 1
+        else:
+            t.case(key=case, nontrivial=True, outcome=["raised", type(e).__name__])
+            t.fail({"relation": "constraint_raises", "obj_type": ot, "path": "setting_history", "mask_set": mask is not None, "exception": type(e).__name__}, case, f"{where}: reading obj / forward(): {type(e).__name__}: {str(e)[:160]}")
+        return
+    if any(e[0] == "type" and OS_SPELLINGS[e[1]] != t0 for e in events):
+        t.extra["setting_histories_judged_after_a_type_change"] += 1
+    n0 = t.nfails
+    judge_object_result(t, case, where, ot, S, init.astype(np.complex128), mask, flags, first, second, patches)
+    masked = bool(afm and mask is not None)
+    below_one = bool(masked and (mask < 1).any())
+    tie = bool(flags["identical_slices"]) and S > 1
+    pa = np.abs(patches)
+    if not tie and ot == "complex" and float(pa.max()) - 1.0 > TOL_AMP:
+        t.fail({"relation": "complex_amplitude_at_most_one", "obj_type": ot, "apply_fov_mask": masked, "observed": "patches"}, case, f"{where}: the patches handed out by forward() have max modulus {pa.max():.7g} > 1")
+    if not tie and ot == "pure_phase" and not below_one and float(np.abs(pa - 1.0).max()) > TOL_AMP:
+        t.fail({"relation": "pure_phase_unit_amplitude", "obj_type": ot, "apply_fov_mask": masked, "mask_below_one": False, "observed": "patches"}, case, f"{where}: the patches handed out by forward() have modulus within [{pa.min():.6g}, {pa.max():.6g}] instead of 1")
+    # differential oracle: a model freshly built with the final settings, same raw parameters
+    try:
+        init_f = init if (ot == "potential") == (t0 == "potential") else init.astype(np.complex64)
+        fr = ObjectPixelated.from_array(init_f, slice_thicknesses=thick, obj_type=ot, rng=int(seed) + 61)
+        fr.reset()
+        fr.constraints = dict(flags)
+        if mask is not None:
+            fr.mask = mask.astype(np.float32)
+        with torch.no_grad():
+            fo = fr.obj.detach().numpy()
+            fp = fr.forward(idx).detach().numpy()
+    except _LIB_ERRORS as e:
+        t.fail({"relation": "constraint_raises", "obj_type": ot, "path": "fresh_model_of_setting_history", "mask_set": mask is not None, "exception": type(e).__name__}, case, f"{where}: a fresh {ot} model with the final settings raises {type(e).__name__}: {str(e)[:160]}")
+        return
+    if first.shape != fo.shape or patches.shape != fp.shape:
+        d = float("inf")
+    else:
+        d = max(float(np.abs(first - fo).max()) / max(1.0, float(np.abs(fo).max())), float(np.abs(patches - fp).max()))
+    t.stat("settings_live_vs_fresh_dev", d if np.isfinite(d) else 1e30)
+    if not d <= TOL_FRESH:
+        t.fail(
+            {"relation": "live_model_equals_fresh_model_with_final_settings", "built_as": t0, "final_type": ot, "last_event": events[-1][0] if events else "none"},
+            case,
+            f"{where}: obj / patches differ by {d:.3g} from those of a model freshly built as {ot} with flags { {k: int(v) for k, v in flags.items()} }, mask {'set' if mask is not None else 'unset'} and the same raw parameters "
+            f"(|obj| in [{np.abs(first).min():.6g}, {np.abs(first).max():.6g}], fresh model [{np.abs(fo).min():.6g}, {np.abs(fo).max():.6g}])",
+        )
+    if t.nfails > n0:
+        t.extra["setting_histories_with_a_failing_clause"] += 1
+
+
+def w_settings(item, seed=0, events=None, triple_events=None):
+    """item = (built_as, S, raw descriptor, index of the first event or -1): the history of that one event and every ordered pair starting with it;
+    every ordered triple over `triple_events` starting with it when it belongs to that sub-alphabet. -1: the empty history."""
+    t0, S, rdesc, i = item
+    t = Tally()
+    if i < 0:
+        run_setting_history(t, t0, S, rdesc, [], seed)
+        return t
+    first = events[i]
+    run_setting_history(t, t0, S, rdesc, [first], seed)
+    for e2 in events:
+        run_setting_history(t, t0, S, rdesc, [first, e2], seed)
+    if first in triple_events:
+        for e2, e3 in itertools.product(triple_events, repeat=2):
+            run_setting_history(t, t0, S, rdesc, [first, e2, e3], seed)
+    t.sample({"kind": "settings", "built_as": t0, "S": S, "raw": list(rdesc), "first_event": first, "pairs": len(events), "triples": len(triple_events) ** 2 if first in triple_events else 0}, cap=2)
+    return t
+
+
+# ----------------------------------------------------------------------------- I. setting changes on ONE live probe model
+PS_STACKS = ["imag_chain", "seeded_0.9", "orthogonal_unsorted"]
+PS_ROI = (6, 8)
+
+
+def _ps_stack(name, M, seed):
+    if name == "imag_chain":
+        return make_content_modes(M, ["chain", 90, 0.75], "seeded", PS_ROI, "ascending", seed)
+    if name == "seeded_0.9":
+        return make_modes(M, 0.9, PS_ROI, "mixed", seed, 70)
+    return make_content_modes(M, ["orthogonal"], "disjoint", PS_ROI, "ascending", seed)
+
+
+def probe_setting_events():
+    return [["ortho", v, r] for r in ROUTES for v in (False, True)] + [["probe", s] for s in PS_STACKS] + [["read"]]
+
+
+def run_probe_setting_history(t, M, events, seed):
+    from quantem.diffractive_imaging.probe_models import ProbePixelated
+
+    events = [list(e) for e in events]
+    case = {"kind": "probe_settings", "M": M, "events": events}
+    where = f"ONE ProbePixelated with {M} modes (stack imag_chain); then " + (" ; ".join("/".join(str(x) for x in e) for e in events) or "nothing")
+    try:
+        raw = _ps_stack("imag_chain", M, seed).astype(np.complex64)
+        pm = ProbePixelated.from_array(raw, probe_params={"energy": 80e3}, rng=int(seed) + 71)
+        ortho = bool(pm.constraints["orthogonalize_probe"])
+        for e in events:
+            if e[0] == "ortho":
+                if e[2] == "setter":
+                    pm.constraints = {"orthogonalize_probe": e[1]}
+                else:
+                    pm.add_constraint("orthogonalize_probe", e[1])
+                ortho = bool(e[1])
+            elif e[0] == "probe":
+                raw = _ps_stack(e[1], M, seed).astype(np.complex64)
+                pm.probe = raw
+            else:
+                pm.probe
+        rep = bool(pm.constraints["orthogonalize_probe"])
+        Q = pm.probe.detach().numpy().astype(np.complex128)
+        fr = ProbePixelated.from_array(raw, probe_params={"energy": 80e3}, rng=int(seed) + 71)
+        fr.constraints = {"orthogonalize_probe": ortho}
+        Qf = fr.probe.detach().numpy().astype(np.complex128)
+    except Exception as e:
+        t.case(key=case, nontrivial=True, outcome=["raised", type(e).__name__])
+        t.fail({"relation": "library_raises", "stage": "probe setting change", "exception": type(e).__name__}, case, f"{where}: {type(e).__name__}: {str(e)[:200]}")
+        return
+    t.case(key=case, nontrivial=len(events) > 0, outcome=[M, ortho, [round(float(v), 3) for v in np.sum(np.abs(Q) ** 2, axis=(1, 2))]])
+    cls = {"path": "probe_setting_history", "orthogonalize_probe": ortho}
+    if rep != ortho:
+        t.fail({"relation": "setting_in_force", "setting": "orthogonalize_probe"}, case, f"{where}: the model reports orthogonalize_probe={rep}, requested {ortho}")
+    if Q.shape != raw.shape or not np.isfinite(Q).all():
+        t.fail({"relation": "probe_shape_finite", **cls}, case, f"{where}: probe has shape {Q.shape} / non-finite values")
+        return
+    if ortho:
+        judge_probe_admissible(t, Q, raw.astype(np.complex128), cls, case, where)
+    d = float(np.abs(Q - Qf).max()) / float(np.abs(Qf).max())
+    t.stat("probe_settings_live_vs_fresh_dev", d)
+    if not d <= TOL_FRESH:
+        t.fail({"relation": "live_model_equals_fresh_model_with_final_settings", "model": "probe", "orthogonalize_probe": ortho}, case, f"{where}: the probe handed out differs by {d:.3g} of the maximum from that of a model freshly built from the same stack with orthogonalize_probe={ortho}")
+
+
+def w_probe_settings(item, seed=0, depth=3):
+    M, i = item
+    t = Tally()
+    ev = probe_setting_events()
+    if i < 0:
+        run_probe_setting_history(t, M, [], seed)
+        return t
+    run_probe_setting_history(t, M, [ev[i]], seed)
+    for L in range(2, depth + 1):
+        for tail in itertools.product(ev, repeat=L - 1):
+            run_probe_setting_history(t, M, [ev[i], *tail], seed)
+    t.sample({"kind": "probe_settings", "M": M, "first_event": ev[i], "depth": depth}, cap=2)
+    return t
+
+
 # ----------------------------------------------------------------------------- driver
 def run(ctx):
     warnings.simplefilter("ignore")
@@ -1254,6 +1663,11 @@ def run(ctx):
         "factories: the factories of the model classes are found by an ast scan of probe_models.py / object_models.py; those not driven (ObjectDIP.*: need a network honouring the library's input validation) are listed in seam_missing; "
         "DIP probes use a harness-defined deterministic mode-mixing network, and the raw stack is that network's output; only the `probe` / `obj` properties are judged (ProbeDIP.forward hands out the unconstrained network output by design)",
         "life histories: the optimiser is a harness-owned deterministic in-place update of the raw parameter; histories are bounded at 4 (thorough: 5) events before the final reset ; read, at most three live instances, file round trips only in short histories",
+        "stack content: the coupled stacks m = C u are linearly independent by construction (unit diagonal) and their largest pairwise correlation is checked to be <= 0.99 (Broken otherwise); "
+        "coupling sizes stop at 2 (0.75 for five modes) because float32 Gram-Schmidt on the unchanged tree comes within 10x of the Gram tolerance beyond that; stacks with one all-zero mode are outside the quantifier and only counted",
+        "setting histories: the settings in force are those of a dict reference model (a request holds until a later one changes it; reset and reads change nothing); obj_type is switched with the raw parameters left as they are "
+        "(there is no public way to re-type them), so a real raw tensor is judged under all three types and a complex raw tensor under the two wave types; real raw tensors carry no negative zeros "
+        "(torch.angle(-0.0) differs between real and complex tensors); the fresh model of the differential oracle gets the final type at construction, the final flags through the constraints setter and the last mask through the mask setter",
         "float32 code: amplitude tolerance 5e-6, idempotence 1e-5 of the value scale, Gram tolerance 1e-4 of the largest mode intensity (float32 Gram-Schmidt at correlation 0.99 reaches 2e-6), intensity tolerances 1e-5",
     )
 
@@ -1261,6 +1675,9 @@ def run(ctx):
         t = w_object(("potential", 2, (5, 6), ("seeded", 0)), seed=ctx.seed)
         t.merge(w_ortho((3, 0.9, (6, 8), "mixed"), seed=ctx.seed))
         t.merge(w_weights((3, "skewed", 1e4, (6, 8), "array"), seed=ctx.seed))
+        t.merge(w_content((3, "seeded", (6, 8), "mixed"), seed=ctx.seed, quick=True))
+        run_setting_history(t, "complex", 2, ("seeded", 0), [["type", "pure_phase"], ["mask", "fractional"]], ctx.seed)
+        run_probe_setting_history(t, 3, [["ortho", False, "setter"], ["probe", "seeded_0.9"], ["ortho", True, "add"]], ctx.seed)
         return (t.n, sorted(t.outcomes), t.nfails, sorted(t.maxima.items()))
 
     ctx.selftest(once)
@@ -1290,6 +1707,27 @@ def run(ctx):
     nseeded = 2 if q else 6
     ctx.coverage["alphabet"]["probe"] = {"modes": Ms, "pairwise_correlation": corrs, "roi": [list(r) for r in rois], "intensity_profiles": PROFILES, "via": ["from_array", "probe setter"], "seeded_stacks_per_point": nseeded}
     ctx.pmap(w_ortho, list(itertools.product(Ms, corrs, rois, PROFILES)), label="probe orthogonalisation", seed=ctx.seed, nseeded=nseeded)
+    Mc = [2, 3, 4] if q else [2, 3, 4, 5]
+    ctx.coverage["alphabet"]["probe_stack_content"] = {
+        "modes": Mc,
+        "stack": "m = C u, u orthonormal, C lower triangular with unit diagonal; rows scaled to the intensity profile",
+        "coupled_pairs": OC_PATTERNS + ["mixed_phases (chain, successive overlaps imaginary / negative real / positive real / -imaginary)", "orthogonal (C = 1)"],
+        "overlap_phase_degrees": OC_PHASES if q else OC_PHASES_THOROUGH,
+        "coupling_size": OC_MAGS if q else OC_MAGS_THOROUGH,
+        "basis": OC_BASES,
+        "roi": [list(r) for r in rois],
+        "intensity_profiles": PROFILES,
+        "via": ["from_array", "probe setter"],
+        "contents_per_mode_count": {str(M): len(content_descs(M, q)) for M in Mc},
+        "coupling_size_for_5_modes": "<= 0.75",
+        "counted_only": "stacks with one all-zero mode (linearly dependent, outside the quantifier)",
+    }
+    before = ctx.tally.n
+    ctx.pmap(w_content, list(itertools.product(Mc, OC_BASES, rois, PROFILES)), chunk=1, label="probe orthogonalisation, stack content", seed=ctx.seed, quick=q)
+    ctx.coverage["probe_stack_content_points"] = ctx.tally.n - before
+    for name in ("content_stacks_with_purely_imaginary_overlaps", "content_stacks_with_purely_real_overlaps", "content_stacks_with_zero_overlap_for_some_pairs_only", "content_stacks_exactly_orthogonal"):
+        if ctx.tally.extra[name] < 10:
+            raise Broken(f"stack-content lattice degenerate: {name} = {ctx.tally.extra[name]}")
     wk = ["default", "equal", "skewed"]
     mis = [1e-3, 1.0, 1e4]
     ctx.coverage["alphabet"]["weights"] = {"modes": Ms, "requested": wk, "mean_intensity": mis, "roi": [list(r) for r in rois], "source": ["array", "from_params"], "seeded_stacks_per_point": nseeded}
@@ -1341,6 +1779,32 @@ def run(ctx):
     ctx.pmap(w_life, [("probe", e) for e in LIFE_EVENTS], chunk=1, label=f"probe life histories (up to {maxlen} events)", seed=ctx.seed, maxlen=maxlen, scratch=ctx.scratch)
     ctx.pmap(w_life, [("object", e) for e in LIFE_EVENTS], chunk=1, label="object life histories", seed=ctx.seed, maxlen=min(maxlen, 4), scratch=ctx.scratch)
     ctx.coverage["life_histories"] = ctx.tally.n - before
+    sev = setting_events()
+    tev = [["type", x] for x in OBJ_TYPES] + [["read"]] if q else setting_events(reduced=True)
+    ctx.coverage["alphabet"]["object_setting_histories"] = {
+        "built_as": OBJ_TYPES,
+        "slices": [1, 2],
+        "hw": list(OS_HW),
+        "raw_tensors": [list(r) for r in OS_RAWS],
+        "events": sev,
+        "all_ordered_pairs_of": len(sev),
+        "all_ordered_triples_of": tev,
+        "observation": "obj property, forward() on one patch covering the object, second application; reported obj_type and flags",
+        "oracles": ["clauses of the current declared type (as in part A)", "equal to a model freshly built with the final settings and the same raw parameters"],
+        "not_in_lattice": "complex raw parameters under final type 'potential'; apply_fov_mask / fix_potential_baseline (potential) with no mask set",
+    }
+    before = ctx.tally.n
+    items = [(t0, S, list(r), i) for t0 in OBJ_TYPES for S in (1, 2) for r in OS_RAWS for i in range(-1, len(sev))]
+    ctx.pmap(w_settings, items, label="object setting histories (one live model)", seed=ctx.seed, events=sev, triple_events=tev)
+    ctx.coverage["object_setting_histories"] = ctx.tally.n - before
+    if ctx.tally.extra["setting_histories_judged_after_a_type_change"] < 100:
+        raise Broken("setting histories degenerate: fewer than 100 histories judged after a change of obj_type")
+    pev = probe_setting_events()
+    pdepth = 3 if q else 4
+    ctx.coverage["alphabet"]["probe_setting_histories"] = {"modes": [2, 3], "roi": list(PS_ROI), "events": pev, "depth": pdepth, "stacks": PS_STACKS}
+    before = ctx.tally.n
+    ctx.pmap(w_probe_settings, [(M, i) for M in (2, 3) for i in range(-1, len(pev))], chunk=1, label="probe setting histories (one live model)", seed=ctx.seed, depth=pdepth)
+    ctx.coverage["probe_setting_histories"] = ctx.tally.n - before
     if len(ctx.tally.outcomes) < 50:
         raise Broken("too few distinct outcomes: the lattice did not vary")
     if len(ctx.tally.nontrivial) < 1000:
@@ -1368,6 +1832,12 @@ def replay(ctx, case):
     elif k == "voxel":
         t = w_voxel((case["shape"], case["raw"]), seed=seed)
         t.fails = [f for f in t.fails if f["case"] == case] or t.fails
+    elif k == "ortho_content":
+        judge_content(t, case["M"], list(case["content"]), case["basis"], tuple(case["roi"]), case["profile"], case["via"], seed)
+    elif k == "settings":
+        run_setting_history(t, case["built_as"], case["S"], tuple(case["raw"]), [list(e) for e in case["events"]], seed)
+    elif k == "probe_settings":
+        run_probe_setting_history(t, case["M"], [list(e) for e in case["events"]], seed)
     elif k == "ortho":
         judge_ortho(t, case["M"], case["corr"], tuple(case["roi"]), case["profile"], case["via"], seed, case["k"])
     elif k == "weights":
